@@ -12,7 +12,28 @@ fn usage() -> ! {
     std::process::exit(2)
 }
 
+struct StderrLog;
+impl log::Log for StderrLog {
+    fn enabled(&self, _m: &log::Metadata) -> bool {
+        true
+    }
+    fn log(&self, r: &log::Record) {
+        eprintln!("[{}] {}:{} {}", r.level(), r.file().unwrap_or("?").rsplit('/').next().unwrap_or("?"), r.line().unwrap_or(0), r.args());
+    }
+    fn flush(&self) {}
+}
+static LOGGER: StderrLog = StderrLog;
+
 fn main() {
+    if let Ok(l) = std::env::var("VERIF_LOG") {
+        let _ = log::set_logger(&LOGGER);
+        log::set_max_level(match l.as_str() {
+            "trace" => log::LevelFilter::Trace,
+            "debug" => log::LevelFilter::Debug,
+            "info" => log::LevelFilter::Info,
+            _ => log::LevelFilter::Warn,
+        });
+    }
     let args: Vec<String> = std::env::args().collect();
     if args.len() < 2 {
         usage();
